@@ -182,11 +182,11 @@ def run_unit(unit, canary=False, use_cache=True, log_air=False):
         if k2 == "postcondition":
             # a postcondition is a contract clause: semantic wherever the return point is, if the fn is extracted code
             semantic = meta.get("fn") is not None and origin in ("code", "spec") and not fn.startswith("lemma")
-        if fn in warned_fns:
-            # the proof script lost an anchor/loop/rule in this function: its failures say "script no longer fits", not "contract violated"
+        misfit = fn in warned_fns   # the proof script lost an anchor/loop/rule in this function: "script no longer fits"
+        if misfit:
             semantic = False
         name = "%s::%s::%s@%s" % (unit, fn, k2, clause if (k2 == "postcondition" and clause) else anchor)
-        res["failures"].append({"name": name, "kind": k2, "class": "semantic" if semantic else "auxiliary", "fn": fn,
+        res["failures"].append({"name": name, "kind": k2, "class": "misfit" if misfit else ("semantic" if semantic else "auxiliary"), "fn": fn,
                                 "tags": meta.get("tags", []), "message": msg, "origin": origin,
                                 "src_file": meta.get("file"), "src_line": meta.get("line"), "gen_line": gl + 1,
                                 "text": text[:300], "clause": clause, "rendered": d.get("rendered", "")[:3000]})
